@@ -49,6 +49,7 @@ def run(repo, run, tier):
     endpoints(repo, run)
     bracket_invariant(repo, run)
     product_sign_tests(repo, run)
+    tolerance_floor(repo, run)
 
 
 def _scalar_tree(fn):
@@ -481,3 +482,23 @@ def product_sign_tests(repo, run, rule_id="C14.7", funcs=("brentsroot", "brentsr
                                                        "(false success / no rejection) and opposite signs count as none (the bracket loses the root)" % (q, src(prod)))
     if n == 0:
         raise AnalysisError("Brent solvers: no sign test of two function values found")
+
+
+def tolerance_floor(repo, run):
+    """'within the requested tolerance': the solvers raise a tolerance that is finer than the resolution of the BRACKET's floating-point type (nothing finer can be
+    resolved); the resolution must be taken from the bracket's dtype -- a tolerance given as a Python float is a float64 whatever the bracket is"""
+    rid = run.rule("C14.8", "every machine-epsilon the Brent solvers consult is that of the bracket's dtype (lower_bound / upper_bound / a / b), never of the tolerance "
+                            "argument or a fixed type: with a longdouble bracket a float tolerance below 8.9e-16 would silently be raised to float64 resolution", floor=2)
+    BR = {"lower_bound", "upper_bound", "a", "b"}
+    for q in ("brentsroot", "brentsrootvec"):
+        fn = repo.get(OPT, q)
+        calls = [c for c in ast.walk(fn) if isinstance(c, ast.Call) and fname(c) in ("epsilon", "tol_epsilon", "finfo")]
+        if not calls:
+            raise AnalysisError("%s: no machine-epsilon lookup found (tolerance floor anchor)" % q)
+        for c in calls:
+            a = c.args[0] if c.args else None
+            ok = isinstance(a, ast.Attribute) and a.attr == "dtype" and isinstance(a.value, ast.Name) and a.value.id in BR
+            run.judged(rid, "%s: %s" % (q, src(c)), ok=ok)
+            if not ok:
+                run.report("C14.8", OPT, c, "%s takes the floating-point resolution from `%s`, not from the bracket's dtype: the requested tolerance can be raised (or lowered) to the "
+                                            "resolution of another type, so the returned point need not be within the requested tolerance of a sign change" % (q, src(a) if a is not None else "<default>"))
